@@ -137,9 +137,10 @@ theorem adjust_cycles (row : RowSem) (t : CycAdj) (pageCrossed : Bool) (ea : Nat
     (adjustRegs row t pageCrossed ea addr c).Cycles = cyc0 row t c.M c.X pageCrossed (c.RD &&& 0x00FF != 0) ∧
     (adjustRegs row t pageCrossed ea addr c).AllCycles = c.AllCycles ∧
     (adjustRegs row t pageCrossed ea addr c).Stopped = c.Stopped := by
-  unfold cyc0 adjustRegs
-  cases hm : c.M <;> cases hx : c.X <;> cases pageCrossed <;>
-    (simp [hm, hx, hc]; split <;> simp_all)
+  refine ⟨?_, rfl, rfl⟩
+  show adjCycles t pageCrossed c = _
+  unfold cyc0 adjCycles
+  rw [hc]
 
 /-- **bookkeeping of one step** over any decode tables whose entries pass `entryOK` -/
 theorem stepWith_book (sem : U8 → RowSem) (adj : U8 → CycAdj) (hok : ∀ b, entryOK (sem b) (adj b) = true)
@@ -147,22 +148,24 @@ theorem stepWith_book (sem : U8 → RowSem) (adj : U8 → CycAdj) (hok : ∀ b, 
     1 ≤ s'.r.Cycles.toNat ∧
     s'.r.AllCycles = s.r.AllCycles + s'.r.Cycles.setWidth 64 ∧
     s'.r.Stopped = (s.r.Stopped || decide ((sem (s.m.f (lin s.r.RK s.r.PC))).proc.kind = .stp)) := by
-  unfold stepWith at h
-  obtain ⟨_, s1, h1, h⟩ := bind_some h
+  unfold stepWith decodeStage at h
+  obtain ⟨row0, sD, hD, h⟩ := bind_some h
+  obtain ⟨_, s1, h1, hD⟩ := bind_some hD
   cases modify_some h1
-  obtain ⟨c, s2, h2, h⟩ := bind_some h
+  obtain ⟨c, s2, h2, hD⟩ := bind_some hD
   cases h2
-  obtain ⟨opb, s3, h3, h⟩ := bind_some h
+  obtain ⟨opb, s3, h3, hD⟩ := bind_some hD
   cases eaRead_some h3
-  simp only at h
-  obtain ⟨_, s4, h4, h⟩ := bind_some h
+  simp only at hD
+  obtain ⟨_, s4, h4, hD⟩ := bind_some hD
   cases modify_some h4
-  obtain ⟨r, s5, h5, h⟩ := bind_some h
+  obtain ⟨r, s5, h5, hD⟩ := bind_some hD
   have f5 := fr_addressing _ _ _ _ h5
   obtain ⟨addr, ea, pageCrossed⟩ := r
-  simp only at h
-  obtain ⟨_, s6, h6, h⟩ := bind_some h
+  simp only at hD
+  obtain ⟨_, s6, h6, hD⟩ := bind_some hD
   cases modify_some h6
+  cases hD
   obtain ⟨_, s7, h7, h⟩ := bind_some h
   have f7 := rel_runP _ _ _ _ h7
   cases modify_some h
@@ -179,7 +182,7 @@ theorem stepWith_book (sem : U8 → RowSem) (adj : U8 → CycAdj) (hok : ∀ b, 
     s7.r.Stopped = (s.r.Stopped || decide ((sem (s.m.f (lin s.r.RK s.r.PC))).proc.kind = .stp))
   generalize adjustRegs (sem (s.m.f (lin s.r.RK s.r.PC))) (adj (s.m.f (lin s.r.RK s.r.PC))) pageCrossed ea addr s5.r = c6 at f7 spec k2 k3
   generalize (sem (s.m.f (lin s.r.RK s.r.PC))).proc.kind = kd at f7 spec ⊢
-  clear k1 c5 b5 a5 hokr h h7 h6 h5 h4 h3 h1
+  clear k1 c5 b5 a5 hokr
   cases kd <;> simp only [KindRel, Same, Branch, Dec, Stp] at f7 spec
   · obtain ⟨x, y, z⟩ := f7
     rw [z, x, y, k2, k3]
